@@ -39,7 +39,7 @@ func TestC18Backend(t *testing.T) {
 			}
 			if evict {
 				// evictions are counted by cache_evict only
-				cfg.CountSoftLimit, cfg.EvictFraction = 3, 0.5
+				cfg.CountSoftLimit, cfg.EvictFraction = 3, []float64{0.5, 1, 0.1}[c.Weighted("EvictFraction", 2, 1, 1)]
 				cfg.EvictionStrategy = cache.EvictionStrategy(c.Pick("strategy", 3))
 				c.Class("eviction-enabled")
 			} else {
